@@ -32,9 +32,18 @@ def run(ctx) -> None:
     ctx.explanation = EXPLANATION
     m = pmod("interval")
     fn = m.func("Interval.range")
-    T.match(ctx, "RANGE.shape", "Interval.range", m, fn, TEMPLATE,
-            why="range() must yield start, then start.<add|subtract>(unit=k*amount) computed from the interval's start, while within the end")
     loops = [n for n in core.walk_fn(fn) if isinstance(n, ast.While)]
+    # a loop written as `while True:` with an early exit, or a direction taken from a helper, is another shape of the same
+    # generator: the shape rules then give no verdict (UNVERIFIED); the drift and step rules below do not depend on it
+    restructured = any(isinstance(lp.test, ast.Constant) for lp in loops) or any(
+        isinstance(c.func, ast.Attribute) and nun(c.func.value) == "self" and c.func.attr.startswith("_") and not c.func.attr.startswith("__")
+        and c.func.attr not in ("_absolute",) for c in core.calls(fn))
+    if restructured:
+        ctx.unverified("RANGE.shape", "Interval.range", "the generator has another loop / helper structure than the reference; only the "
+                       "structure-independent rules (no-drift, step) are decided", m.loc(fn))
+    else:
+        T.match(ctx, "RANGE.shape", "Interval.range", m, fn, TEMPLATE,
+                why="range() must yield start, then start.<add|subtract>(unit=k*amount) computed from the interval's start, while within the end")
     if len(loops) == 1:
         lp = loops[0]
         assigned = {t.id for s in lp.body for t in ast.walk(s) if isinstance(t, ast.Name) and isinstance(t.ctx, ast.Store)}
@@ -61,10 +70,13 @@ def run(ctx) -> None:
                 kinds.append("assign:" + nun(s.targets[0]))
             elif isinstance(s, ast.AugAssign):
                 kinds.append(f"aug:{nun(s.target)}{type(s.op).__name__}{nun(s.value)}")
+        if restructured:
+            kinds = None
         cand = nun(lp.test.args[0]) if isinstance(lp.test, ast.Call) and len(lp.test.args) == 2 else "?"
         cnt = [nun(s.target) for s in lp.body if isinstance(s, ast.AugAssign)]
         cnt = cnt[0] if cnt else "?"
-        ctx.ob("RANGE.order", "Interval.range/loop-body", kinds == [f"yield:{cand}", f"assign:{cand}", f"aug:{cnt}Addamount"],
+        if kinds is not None:
+          ctx.ob("RANGE.order", "Interval.range/loop-body", kinds == [f"yield:{cand}", f"assign:{cand}", f"aug:{cnt}Addamount"],
                f"loop body {kinds}; must yield the tested candidate, compute the next one, then advance i by amount", m.loc(lp))
         bound_ok = isinstance(lp.test, ast.Call) and nun(lp.test.func) == "op" and len(lp.test.args) == 2
         if bound_ok:
@@ -77,8 +89,11 @@ def run(ctx) -> None:
                 elif isinstance(s, ast.Assign):
                     pre[nun(s.targets[0])] = nun(s.value)
             bound_ok = pre.get(endv, endv) == "self.end" and pre.get(cand) == "self.start"
-        ctx.ob("RANGE.bound", "Interval.range/test", bound_ok,
-               f"loop test `{nun(lp.test)}`; the candidate must be compared with the end before it is yielded", m.loc(lp))
+        if restructured:
+            ctx.unverified("RANGE.bound", "Interval.range/test", f"loop test `{nun(lp.test)}` in a restructured generator", m.loc(lp))
+        else:
+            ctx.ob("RANGE.bound", "Interval.range/test", bound_ok,
+                   f"loop test `{nun(lp.test)}`; the candidate must be compared with the end before it is yielded", m.loc(lp))
     else:
         ctx.unverified("RANGE.no-drift", "Interval.range", f"{len(loops)} while loops", m.loc(fn))
     # pairing
@@ -86,7 +101,10 @@ def run(ctx) -> None:
     init = {nun(s.targets[0]): nun(s.value) for s in core.body_no_doc(fn) if isinstance(s, ast.Assign) and isinstance(s.targets[0], ast.Name)}
     ok = init.get("method") == "'add'" and init.get("op") == "operator.le" and len(sel) == 1 and \
         nun(sel[0].test) == "not self._absolute and self.invert" and sorted(nun(s) for s in sel[0].body) == ["method = 'subtract'", "op = operator.ge"]
-    ctx.ob("RANGE.pairing", "Interval.range/direction", ok,
+    if restructured and not ok:
+        ctx.unverified("RANGE.pairing", "Interval.range/direction", "direction selected in another form (helper / conditional expression)", m.loc(fn))
+    else:
+      ctx.ob("RANGE.pairing", "Interval.range/direction", ok,
            f"default ({init.get('method')}, {init.get('op')}), switch `{nun(sel[0].test) if sel else None}` -> "
            f"{[nun(s) for s in sel[0].body] if sel else None}; (add, <=) forward and (subtract, >=) for an inverted, non-absolute interval",
            m.loc(fn))
